@@ -7,6 +7,7 @@ pub mod c06;
 pub mod c07;
 pub mod c08;
 pub mod c09;
+pub mod c10;
 pub mod c17;
 
 /// Print the reference model's and the real parser's view of one case (used by `replay`).
